@@ -31,13 +31,17 @@ def option_grid(tier):
     """thorough: the full product (96).  quick: the full product of the five boolean options (32) with the
     default indent, plus the other indent strings under the default and the all-flipped setting"""
     out = []
-    indents = [" "] if tier == "quick" else [" ", "    ", "\t"]
-    for use_with, cte, ann, ic, ind, merge in itertools.product([True, False], [False, True], [True, False], [False, True], indents, [True, False]):
-        out.append({"use_with": use_with, "use_cte_elim": cte, "annotate": ann, "initial_commas": ic, "sql_indent": ind, "allow_extend_merges": merge})
     if tier == "quick":
+        # the full product of the four switches that change the structure of the text, with the two purely
+        # lexical ones (initial_commas, sql_indent) at their defaults, plus four settings that vary those
+        for use_with, cte, ann, merge in itertools.product([True, False], [False, True], [True, False], [True, False]):
+            out.append({"use_with": use_with, "use_cte_elim": cte, "annotate": ann, "initial_commas": False, "sql_indent": " ", "allow_extend_merges": merge})
         for ind in ("    ", "\t"):
-            out.append(dict(DEFAULT, sql_indent=ind))
+            out.append(dict(DEFAULT, sql_indent=ind, initial_commas=True))
             out.append({"use_with": False, "use_cte_elim": True, "annotate": False, "initial_commas": True, "sql_indent": ind, "allow_extend_merges": False})
+        return out
+    for use_with, cte, ann, ic, ind, merge in itertools.product([True, False], [False, True], [True, False], [False, True], [" ", "    ", "\t"], [True, False]):
+        out.append({"use_with": use_with, "use_cte_elim": cte, "annotate": ann, "initial_commas": ic, "sql_indent": ind, "allow_extend_merges": merge})
     return out
 
 
@@ -270,7 +274,7 @@ def run(tier):
     ]
     return run.finish(
         exhaustive=True,
-        rule=f"every state at depth <= {depth} of the DAG slice (window/plain extends, selections, projections, limits, joins and concatenations with the state's own prefixes as the same object and as a rebuilt copy), plus 4 pipelines over raw SQL nodes used twice and 4 in which one limited, ordered sub-pipeline is a member of two unions with different column orders, x {len(option_grid(tier))} option settings ({'the full product of the five switches under the default indent plus 4 settings with other indents' if tier == 'quick' else 'the full product of the five switches and three indent strings'}) x 2 dialect texts x all multisets of <= 2 rows",
+        rule=f"every state at depth <= {depth} of the DAG slice (window/plain extends, selections, projections, limits, joins and concatenations with the state's own prefixes as the same object and as a rebuilt copy), plus 4 pipelines over raw SQL nodes used twice and 4 in which one limited, ordered sub-pipeline is a member of two unions with different column orders, x {len(option_grid(tier))} option settings ({'the full product of use_with, use_cte_elim, annotate and extend merging, plus 4 settings varying initial_commas and sql_indent' if tier == 'quick' else 'the full product of the five switches and three indent strings'}) x 2 dialect texts x all multisets of <= 2 rows",
     )
 
 
